@@ -105,6 +105,11 @@ func (p *panicInfo) site() string {
 		// zngio reader and hands it to the ZNG unmarshaler, which walks it with
 		// zcode.Iter (and formats it for error messages): one root cause,
 		// many innermost frames.
+		if strings.Contains(fmt.Sprint(p.val), "reflect") {
+			// ... or a well-formed value of an unexpected type: the unmarshaler
+			// assigns through reflect without checking assignability.
+			return "/vng.readMetadata[unmarshal-type-mismatch]"
+		}
 		return "/vng.readMetadata[unmarshal-of-unvalidated-value]"
 	}
 	s := p.frames[0]
